@@ -20,6 +20,7 @@ func init() {
 
 func runC20(c *Ctx) {
 	c20Guard(c, "C20.guard")
+	c13QuestionGuarded(c, "C20.question-guarded")
 	c20Constructors(c)
 	c20Passthrough(c)
 	c20Any(c)
